@@ -188,6 +188,11 @@ class WireMonitor(Monitor):
                 return out
             self.n_init[side] = 1
             self.peer_mru[1 - side] = msg['segment_mru']
+            # the node ID it carries is the sender's own, as text
+            own = (world.params.get('node_ids') or {}).get(who, 'dtn://%s/' % who.lower()) if hasattr(world, 'params') else None
+            if own is not None and bytes(msg['node_id']) != own.encode('utf-8'):
+                out.append(self._v(world, 'sess-init-node-id-differs-from-configuration', dict(),
+                                   '%s is configured as %r and announced %r' % (who, own, bytes(msg['node_id']))))
             return out
         if kind == 'SESS_INIT':
             out.append(self._v(world, 'second-sess-init', dict(), who))
@@ -255,6 +260,19 @@ class WireMonitor(Monitor):
             # refusal voids outstanding acks of that transfer
             self.unacked[1 - side] = [p for p in self.unacked[1 - side] if p[1] != msg['transfer_id']]
             return out
+        return out
+
+    def check_final(self, world):
+        # nothing further can change: what a side has written on a connection that is still open
+        # must end at a message boundary
+        out = []
+        conns = getattr(world, 'conns', [])
+        if conns and not any(conns[0].closed):
+            for side in (0, 1):
+                if self.parser[side].pending() and not self.parser[side].dead:
+                    out.append(self._v(world, 'stream-ends-inside-a-message', dict(),
+                                       '%s stopped writing %d octets into a message (connection still open, nothing pending)'
+                                       % (SIDES[side], self.parser[side].pending())))
         return out
 
     def outcome(self, world):
